@@ -18,7 +18,8 @@ fp("dask/utils.py", "iter_chunks")
 fp("dask/dataframe/methods.py", "boundary_slice")
 # C41
 fp("dask/dataframe/dask_expr/_indexing.py", "LocSlice._divisions", "LocSlice._layer", "LocSlice.start", "LocSlice.stop",
-   "LocSlice.istart", "LocSlice.istop", "LocSlice._lower", "LocIndexer._loc", "LocIndexer._loc_slice", "LocList._layer_information")
+   "LocSlice.istart", "LocSlice.istop", "LocSlice._lower", "LocIndexer._loc", "LocIndexer._loc_slice", "LocList._layer_information",
+   "LocList._lower", "LocElement._divisions", "LocElement._lower", "LocElement._layer", "LocIndexer._loc_element", "_get_partitions")
 fp("dask/dataframe/dask_expr/_shuffle.py", "BaseSetIndexSortValues._divisions", "BaseSetIndexSortValues.npartitions")
 fp("dask/dataframe/dask_expr/_concat.py", "Concat._monotonic_divisions")
 fp("dask/dataframe/dask_expr/_expr.py", "Partitions._divisions", "Partitions._simplify_down", "PartitionsFiltered.divisions",
